@@ -1,7 +1,7 @@
 """Structural clauses added after the eighth round (g) of independently seeded changes (same discipline as rules5/6/7)."""
 from .core import op_place, op_local, callee_name, last_seg, norm_path, walk_expr
 from .report import RuleResult, Violation
-from .guard import Obl, dom_atoms, named_roots, reach, return_some_sites, deep_leaves, roots_named
+from .guard import Obl, dom_atoms, named_roots, reach, return_some_sites, deep_leaves, roots_named, edge_atom
 from .tag import leaves, strip_casts
 
 FN_TRAITS = ("core::ops::FnMut", "core::ops::Fn", "core::ops::FnOnce")
@@ -810,3 +810,308 @@ def _indexed_by_to_index(facts, b, l, depth):
                         if hit:
                             return hit
     return None
+
+
+# ------------------------------------------------------------------------------------------------ round 10 (i)
+# C05: the node count of from_sorted_edges covers both endpoints of every edge
+def _fields_per_call(b, start_locals):
+    """backward slice from start_locals inside body b: {into_weighted_edge call block: set of first-level fields of its result that the slice reads}, closures met"""
+    per_call, closures = {}, set()
+    iwe = {t["dest"]["l"]: i for i, t in b.calls() if last_seg(t["f"]["path"]) == "into_weighted_edge"}
+    seen, work = set(), list(start_locals)
+    while work and len(seen) < 400:
+        l = work.pop()
+        if l in seen:
+            continue
+        seen.add(l)
+        for d in b.defs().get(l, []):
+            if d[0] in ("st", "pst"):
+                rv = b.blocks[d[1]]["st"][d[2]]["rv"]
+                pls = ([rv["pl"]] if rv.get("pl") else []) + [q for q in (op_place(o_) for o_ in rv.get("o", [])) if q]
+                for pl in pls:
+                    if pl["l"] in iwe:
+                        fs = [x["f"] for x in pl["p"] if isinstance(x, dict) and "f" in x]
+                        if fs:
+                            per_call.setdefault(iwe[pl["l"]], set()).add(fs[0])
+                    work.append(pl["l"])
+                if rv["k"] == "agg" and rv.get("ak") == "closure":
+                    closures.add(rv["name"])
+            elif d[0] == "call":
+                for a_ in b.blocks[d[1]]["term"]["args"]:
+                    pl = op_place(a_)
+                    if pl is not None:
+                        work.append(pl["l"])
+    return per_call, closures
+
+
+def csr_sorted_size(facts):
+    o = Obl("FLOW-CSRSIZE", "Csr::from_sorted_edges sizes the graph by the maximum over BOTH endpoints of EVERY input edge: the value given to with_nodes(..) is computed from "
+                            "the source AND the target of one and the same into_weighted_edge() result, per edge (in a loop or in the closure that feeds the maximum) - a source "
+                            "that is not covered ends the row scan early and the remaining (unsorted) edges are dropped with Ok")
+    for b0 in o.need_fn(facts, "csr::Csr::from_sorted_edges"):
+        n = 0
+        good = False
+        for i, t in b0.calls():
+            if last_seg(t["f"]["path"]) != "with_nodes" or not t["args"]:
+                continue
+            e = b0.expr(t["args"][0], 4)
+            if isinstance(e, tuple) and e[0] == "const":
+                continue
+            n += 1
+            starts = [op_place(t["args"][0])["l"]] if op_place(t["args"][0]) else []
+            per_call, closures = _fields_per_call(b0, starts)
+            if any({0, 1} <= fs for fs in per_call.values()):
+                good = True
+            for cp in closures:
+                cb = facts.body(cp)
+                if cb is None:
+                    continue
+                pc2, _ = _fields_per_call(cb, [0])
+                if any({0, 1} <= fs for fs in pc2.values()):
+                    good = True
+        o.check(b0, "size-covers-both-endpoints", b0.line, good and n >= 1, "the node count is computed from source and target of every edge",
+                "the value given to with_nodes(..) is not computed from both endpoints of each edge: the node count no longer covers every source, so an out-of-order edge "
+                "whose source is past the count is never looked at and the function returns Ok with edges missing")
+    o.r.floor = 1
+    return o.r
+
+
+# C06: adjacency matrices are only ever filled
+def adjacency_matrix_only_sets(facts):
+    r = RuleResult("WHO-CLEARS", "GetAdjacencyMatrix::adjacency_matrix builds the bit matrix by setting bits only (put / insert / set(_, true)): nothing in it clears, toggles or "
+                                 "writes a computed value - the bit of an earlier edge a -> b must survive the later edge b -> a")
+    n = 0
+    for b0 in facts.bodies:
+        if b0.kind != "AssocFn" or b0.name != "adjacency_matrix" or not b0.file.startswith("src/"):
+            continue
+        for b in facts.with_closures(b0):
+            for i, t in b.calls():
+                np_ = norm_path(t["f"]["path"])
+                if not np_.startswith("fixedbitset::FixedBitSet"):
+                    continue
+                nm = last_seg(np_)
+                if nm in ("with_capacity", "put", "insert", "grow", "len", "contains", "new", "with_capacity_and_blocks", "grow_and_insert"):
+                    if nm in ("put", "insert", "grow_and_insert"):
+                        n += 1
+                        r.ok(b.npath, "set#%d" % n, "sets a bit")
+                    continue
+                n += 1
+                if nm == "set" and len(t["args"]) >= 3 and t["args"][2].get("const") in ("1", "true"):
+                    r.ok(b.npath, "set#%d" % n, "set(_, true)")
+                    continue
+                r.bad(Violation("WHO-CLEARS", b.npath, "bit-write:%s" % nm, b.file, t["line"],
+                                "adjacency_matrix writes a bit with FixedBitSet::%s (a cleared / toggled / computed value): for a directed graph the transposed bit of edge "
+                                "a -> b is the bit of edge b -> a, so an antiparallel pair loses one of its edges in is_adjacent" % nm))
+    r.floor = 3
+    r.floor_what = "bit writes in adjacency_matrix impls"
+    return r
+
+
+# C09 / C07: TarjanScc's counters start at 1 and usize::MAX
+def tarjan_initial_state(facts):
+    r = RuleResult("RESET-TARJANINIT", "TarjanScc encodes `unvisited` as rootindex None = NonZero::new(0): every construction of the struct starts `index` at 1 and `componentcount` at "
+                                       "usize::MAX (a derived Default would start both at 0: the first node looks unvisited and componentcount - 1 underflows)")
+    n = 0
+    for b in facts.bodies:
+        if not b.file.startswith("src/"):
+            continue
+        for i, j, st in b.stmts():
+            rv = st["rv"]
+            if rv["k"] != "agg" or rv.get("ak") != "adt" or not rv.get("name", "").endswith("algo::TarjanScc"):
+                continue
+            n += 1
+            e0 = b.expr(rv["o"][0], 6) if rv["o"] else None
+            e1 = b.expr(rv["o"][1], 6) if len(rv["o"]) > 1 else None
+            ok = isinstance(e0, tuple) and e0[0] == "const" and e0[1] == "1" and isinstance(e1, tuple) and e1[0] == "const" and ("MAX" in e1[1] or e1[1] in ("18446744073709551615", "4294967295"))
+            if ok:
+                r.ok(b.npath, "construct#%d" % n, "index = 1, componentcount = usize::MAX")
+            else:
+                r.bad(Violation("RESET-TARJANINIT", b.npath, "construct", b.file, st["line"],
+                                "a TarjanScc is constructed with index / componentcount other than 1 / usize::MAX: the first visited node gets rootindex NonZero::new(0) = None "
+                                "(looks unvisited), emitted components are re-visited and `componentcount -= 1` underflows"))
+    r.floor = 1
+    r.floor_what = "TarjanScc constructions"
+    return r
+
+
+# C10: dijkstra stops on the popped node only
+def dijkstra_exits(facts):
+    o = Obl("GUARD-DIJKGOAL", "dijkstra leaves its main loop only when the heap is empty or when the node just POPPED (settled) is the goal: an exit taken on an edge target whose "
+                              "score was merely improved ignores the out-edges of the current node that have not been relaxed yet")
+    for b in o.need_fn(facts, "algo::dijkstra::dijkstra"):
+        pops = [(i, t) for i, t in b.calls() if last_seg(t["f"]["path"]) == "pop" and "BinaryHeap" in norm_path(t["f"]["path"])]
+        o.check(b, "pop", b.line, len(pops) >= 1, "heap pop found", "BinaryHeap::pop not found in dijkstra")
+        if not pops:
+            continue
+        h = pops[0][0]
+        succ = b.cfg()[0]
+        loop = {x for x in reach(b, h) if h in reach(b, x)}
+        rets = {i for i, bl in enumerate(b.blocks) if bl["term"]["k"] == "return" and not bl["cleanup"]}
+        popped = {("local", l) for l in range(len(b.locals)) if b.lname(l)} & set()
+        # named locals bound from the popped element
+        pop_roots = set()
+        for l in range(len(b.locals)):
+            if not b.lname(l):
+                continue
+            for d in b.defs().get(l, []):
+                if d[0] == "st":
+                    rv = b.blocks[d[1]]["st"][d[2]]["rv"]
+                    if rv["k"] == "use" and op_place(rv["o"][0]) is not None and op_place(rv["o"][0])["l"] == pops[0][1]["dest"]["l"]:
+                        pop_roots.add(("local", l))
+        n = 0
+        for u in sorted(loop):
+            for v in succ[u]:
+                if v in loop or not (reach(b, v) & rets):
+                    continue
+                n += 1
+                if u == h or (b.blocks[u]["term"]["k"] == "switch" and any(isinstance(s, tuple) and s[0] == "call" and s[3] == h for s in walk_expr(b.expr(b.blocks[u]["term"]["d"], 6)))):
+                    o.check(b, "exit#%d" % n, b.blocks[u]["term"].get("line", b.line), True, "the heap is empty", "")
+                    continue
+                ok = False
+                atoms = list(dom_atoms(b, u, named_leaf=True))
+                if b.blocks[u]["term"]["k"] == "switch":
+                    for (lab, tgt) in b.switch_edges(u):
+                        if tgt == v:
+                            cases = [c for c in b.switch_edges(u) if c[0] != "otherwise"]
+                            if lab == "otherwise" and len(cases) == 1 and cases[0][0] in (0, 1):
+                                lab = 1 - cases[0][0]      # a bool switch: the other value
+                            ea = edge_atom(b, u, lab, 12, True)
+                            if ea is not None:
+                                atoms.append((ea[0], ea[1], u))
+                for (a, truth, src) in atoms:
+                    for s in walk_expr(a):
+                        if isinstance(s, tuple) and s[0] == "call" and last_seg(s[1]["path"]) in ("eq", "ne") and len(s[2]) >= 2:
+                            rts = set()
+                            for a_ in s[2]:
+                                rts |= roots_named(b, a_)
+                            if rts & pop_roots and ("arg", 3) in {x for a_ in s[2] for x in leaves(a_)} | rts:
+                                ok = True
+                o.check(b, "exit#%d" % n, b.blocks[u]["term"].get("line", b.line), ok, "the exit is taken when the popped node equals the goal",
+                        "dijkstra leaves its loop on a test that does not compare the goal with the node just popped: the goal's score is returned before every cheaper route "
+                        "through the node being expanded has been relaxed (the goal's entry is not exact)")
+        o.check(b, "exits", b.line, n >= 2, "%d loop exit(s)" % n, "expected the heap-empty exit and the goal exit of dijkstra's loop")
+    o.r.floor = 3
+    return o.r
+
+
+# C14: Acyclic::remove_node tests presence, not bounds
+def acyclic_remove_presence(facts):
+    r = RuleResult("GUARD-ACYCLICPRESENT", "Acyclic::remove_node touches the order map only for a node that is PRESENT in the inner graph: the call order_map.remove_node(n) is dominated by "
+                                           "the Some outcome of node_weight(n) / a true contains_node(n) - an index bound is not enough for a StableDiGraph (a vacant index has the "
+                                           "default position 0, which belongs to a live node)")
+    n = 0
+    for b in facts.bodies:
+        if b.file != "src/acyclic.rs" or b.kind != "AssocFn" or b.name != "remove_node":
+            continue
+        for i, t in b.calls():
+            if not norm_path(t["f"]["path"]).endswith("order_map::OrderMap::remove_node"):
+                continue
+            n += 1
+            ok = False
+            for (a, truth, src) in dom_atoms(b, i):
+                for s in walk_expr(a):
+                    if isinstance(s, tuple) and s[0] == "call" and last_seg(s[1]["path"]) in ("node_weight", "contains_node", "node_weight_mut"):
+                        ok = True
+            if ok:
+                r.ok(b.npath, "order-remove#%d" % n, "dominated by a presence test of the node")
+            else:
+                r.bad(Violation("GUARD-ACYCLICPRESENT", b.npath, "order-remove", b.file, t["line"],
+                                "order_map.remove_node(n) is not dominated by a presence test of n in the inner graph: removing a vacant index of a StableDiGraph a second time "
+                                "deletes the live node at position 0 from the position index (nodes_iter / range lose it)"))
+    r.floor = 2
+    r.floor_what = "order_map.remove_node call sites in Acyclic::remove_node"
+    return r
+
+
+# C15: the greedy walk never releases a node
+def matching_never_unvisits(facts):
+    r = RuleResult("WHO-UNVISIT", "matching.rs: a node that has been visited by the greedy non-backtracking walk / the augmenting search is never released (VisitMap::unvisit, "
+                                  "FixedBitSet::set(_, false) / toggle / remove are not called): a released dead-end node has already been matched and would be matched again")
+    n = 0
+    for b in facts.bodies:
+        if b.file != "src/algo/matching.rs" or b.kind not in ("Fn", "AssocFn", "Closure"):
+            continue
+        n += 1
+        bad = []
+        for i, t in b.calls():
+            np_ = norm_path(t["f"]["path"])
+            nm = last_seg(np_)
+            if np_.endswith("VisitMap::unvisit") or (np_.startswith("fixedbitset::FixedBitSet") and nm in ("toggle", "remove", "clear", "set") and
+                                                     not (nm == "set" and len(t["args"]) >= 3 and t["args"][2].get("const") in ("1", "true"))):
+                bad.append((nm, t["line"]))
+            if np_.startswith(("std::collections::HashSet", "hashbrown::HashSet", "hashbrown::set::HashSet")) and nm == "remove":
+                bad.append((nm, t["line"]))
+        if bad:
+            r.bad(Violation("WHO-UNVISIT", b.npath, "release", b.file, bad[0][1],
+                            "%s releases a visited node (%s): the node may already carry a mate; a later start pairs it again - mate is no longer symmetric and len() / edges() "
+                            "disagree" % (b.npath, bad[0][0])))
+        else:
+            r.ok(b.npath, "no-release", "no visit mark is ever cleared")
+    r.floor = 10
+    r.floor_what = "functions of matching.rs"
+    return r
+
+
+# C18: the connector comes from is_directed() on every path
+def dot_connector_source(facts):
+    o = Obl("FLOW-DOTKIND", "Dot::graph_fmt picks the graph keyword and the edge connector from the two-entry tables TYPE / EDGE with an index that is is_directed() on EVERY path - "
+                            "a cached index that is only assigned under some option prints `--` for the edges of a directed graph")
+    for b in o.need_fn(facts, "dot::Dot::graph_fmt"):
+        n = 0
+        for i, j, st in b.stmts():
+            for pl in [st["lhs"]] + ([st["rv"]["pl"]] if st["rv"].get("pl") else []) + [q for q in (op_place(o_) for o_ in st["rv"].get("o", [])) if q]:
+                ixs = [x["ix"] for x in pl["p"] if isinstance(x, dict) and "ix" in x]
+                if not ixs or "str; 2" not in b.lty(pl["l"]):
+                    continue
+                n += 1
+                work, seen, ok = [ixs[0]], set(), True
+                while work:
+                    l = work.pop()
+                    if l in seen:
+                        continue
+                    seen.add(l)
+                    ds = [d for d in b.defs().get(l, []) if d[0] in ("st", "call")]
+                    if not ds:
+                        ok = False
+                    for d in ds:
+                        if d[0] == "call":
+                            ok = ok and last_seg(b.blocks[d[1]]["term"]["f"]["path"]) == "is_directed"
+                            continue
+                        rv = b.blocks[d[1]]["st"][d[2]]["rv"]
+                        if rv["k"] in ("use", "cast") and op_local(rv["o"][0]) is not None and not op_place(rv["o"][0])["p"]:
+                            work.append(op_local(rv["o"][0]))
+                        else:
+                            ok = False
+                o.check(b, "table-index#%d" % n, st["line"], ok, "the table index is is_directed() on every path",
+                        "a TYPE / EDGE table is indexed by a value that is not is_directed() on every path (a default or cached index): with GraphContentOnly a directed "
+                        "graph's edge statements are printed with `--`")
+        o.check(b, "table-indexes", b.line, n >= 2, "%d table lookup(s)" % n, "expected the TYPE and EDGE table lookups in graph_fmt")
+    o.r.floor = 3
+    return o.r
+
+
+# C20: DSatur's key is (saturation, degree), compared in that order
+def dsatur_key_shape(facts):
+    o = Obl("TYPE-DSATURKEY", "dsatur_coloring orders its heap by the pair (saturation, degree), saturation first: every heap push carries a 2-tuple score whose first component is "
+                              "the size of the node's neighbour-colour set (0 at the start) - a single combined number lets a high-degree uncoloured node overtake a saturated one "
+                              "and a bipartite graph gets a third colour")
+    for b in o.need_fn(facts, "algo::coloring::dsatur_coloring"):
+        n = 0
+        for i, t in b.calls():
+            if last_seg(t["f"]["path"]) != "push" or "BinaryHeap" not in norm_path(t["f"]["path"]) or len(t["args"]) < 2:
+                continue
+            n += 1
+            e = strip_casts(b.expr(t["args"][1], 10))
+            ok = False
+            if isinstance(e, tuple) and e[0] == "agg" and e[3]:
+                sc = strip_casts(e[3][0])
+                if isinstance(sc, tuple) and sc[0] == "agg" and len(sc[3]) == 2:
+                    first = strip_casts(sc[3][0])
+                    ok = (isinstance(first, tuple) and first[0] == "const" and first[1] == "0") or \
+                        any(isinstance(s, tuple) and s[0] == "call" and last_seg(s[1]["path"]) == "len" for s in walk_expr(first))
+            o.check(b, "push#%d" % n, t["line"], ok, "score = (saturation, degree)",
+                    "a heap entry of dsatur_coloring is not scored by the pair (saturation, degree) with the saturation first: the selection order is no longer DSatur's and "
+                    "bipartite graphs may need a third colour")
+        o.check(b, "pushes", b.line, n >= 2, "%d heap push(es)" % n, "expected the seeding push and the re-queue push")
+    o.r.floor = 3
+    return o.r
